@@ -20,6 +20,8 @@ Voc == <<
   IComment(""),
   IComment("SecMarker \"END-932\""),
   IComment("#SecRule ARGS \"@rx old1\" \\"),        \* a commented-out copy of a rule line
+  IComment("    #    \"id:932100,\\"),                  \* an INDENTED commented-out id action
+  IComment("\t# was: \"id:932140,\\ SecRule ARGS \"@rx old1\" \\"),
   IRule("932100", << Link("@rx ", "old1") >>),
   IRule("932100", << Link("@rx ", "old1"), Link("@rx ", "old2 x"), Link("!@rx ", "old3") >>),
   IRule("932101", << Link("@rx ", "a\\\"@rx b") >>),
